@@ -22,7 +22,8 @@ ASSUMPTIONS = [
     "END / NAM / EQU / SETDP rows may show any address (no property fixes it)",
 ]
 HEALTH = {"accepted": 0.2, "nontrivial_layout": 0.12, "negative": 0.02}
-EXHAUSTIVE = {}
+EXHAUSTIVE = {"quick": ["every third program of the C03 label,PCR distance families (single, spanning, crossing), judged by the layout walk"],
+              "thorough": ["all programs of the C03 label,PCR distance families, judged by the layout walk"]}
 
 _neg = st.sampled_from(["dup_label", "undef_symbol", "second_org", "code_before_org"])
 _case = st.one_of(
@@ -32,8 +33,36 @@ _case = st.one_of(
     st.fixed_dictionaries(dict(prog=proggen.small_program, neg=_neg, at=st.integers(0, 40), at2=st.integers(0, 40))))
 
 
+def _from_items(case):
+    """C03 item program -> program description of vlib/proggen (same text, judged by the layout walk)"""
+    stmts = [{"lab": "", "k": "org", "addr": case["org"]}]
+    for it in case["items"]:
+        t = it["t"]
+        lab = it.get("label", "")
+        if t == "nop":
+            stmts.append({"lab": lab, "k": "inh", "mn": "NOP"})
+        elif t == "rmb":
+            stmts.append({"lab": lab, "k": "rmb", "val": proggen.lit(it["n"])})
+        elif t == "lda8":
+            stmts.append({"lab": lab, "k": "idx", "mn": "LDA", "reg": "X", "ind": False, "val": proggen.lit(100)})
+        elif t == "ldx":
+            stmts.append({"lab": lab, "k": "imm16", "mn": "LDX", "val": {"lit": 0x1234, "sp": "hex4"}})
+        elif t == "br":
+            stmts.append({"lab": lab, "k": "br", "mn": it["mn"], "to": it["to"]})
+        else:
+            k = it.get("k", 0)
+            stmts.append({"lab": lab, "k": "pcr", "mn": it["mn"], "ind": bool(it.get("ind")),
+                          "val": {"sym": it["to"], "op": "+" if k > 0 else "-" if k < 0 else "", "c": abs(k)}})
+    return {"org": case["org"], "stmts": stmts}
+
+
 def enumerated(tier, seed):
-    return []
+    # the sizes of PC-relative statements decide every later address: re-use C03's distance families
+    from checks import c03
+    for i, case in enumerate(c03.enumerated("quick", seed)):
+        if any(it["t"] == "pcr" for it in case["items"]) and not any(it["t"] == "rmb" and it["n"] > 2000 for it in case["items"]):
+            if i % 3 == 0 or tier == "thorough":
+                yield dict(prog=_from_items(case))
 
 
 def searches(tier):
